@@ -46,6 +46,11 @@ Definition fish_escape_string (s : str) (escape_comma : bool) : str :=
 Definition fish_escape_help (help : str) : str :=
   fish_escape_string (apply_chain fish_escape_help_pre help) false.
 
+(** escape_double_quoted, and the possible-value help as value_completion emits it inside the
+    double-quoted [-a "..."] list: [escape_double_quoted(&escape_help(help))] *)
+Definition fish_escape_double_quoted (s : str) : str := apply_chain fish_escape_double_quoted_chain s.
+Definition fish_possible_value_help (help : str) : str := fish_escape_double_quoted (fish_escape_help help).
+
 (** zsh.rs *)
 Definition zsh_escape_help (s : str) : str := apply_chain zsh_escape_help_chain s.
 Definition zsh_escape_value (s : str) : str := apply_chain zsh_escape_value_chain s.
